@@ -203,6 +203,12 @@ def run_config(w, c, idx, psize=None):
                 if cause == "same_in_out":
                     in_path = out_path
                     prior = data
+                elif cause == "none" and idx % 3 == 1:
+                    # a file in the current directory whose NAME is a word of the command line (an alias, a command): a
+                    # file argument is a file argument wherever it stands and whatever it is called
+                    in_name = ["enc", "dec", "pass", "gen", "encrypt", "password", "key"][(idx // 3) % 7]
+                    sb.write(in_name, data)
+                    in_path = in_name
                 else:
                     sb.write("in.bin", data)
             args.append(in_path)
@@ -230,7 +236,7 @@ def run_config(w, c, idx, psize=None):
         if cause == "output_dir_missing":
             out_path = sb.path("no-such-directory/out.bin")
         if cause == "output_device_full":
-            out_path = "/dev/full"
+            out_path = cli.full_device(sb.dir)
         if cause == "output_is_directory":
             out_path = sb.path("outdir")
             os.mkdir(out_path)
@@ -307,7 +313,7 @@ def run_config(w, c, idx, psize=None):
             env["KESTREL_PASSWORD"] = pw
         # data on stdin arrives in one go or (every second stdin run) in 5000-byte pieces with pauses, like from a slow producer
         pieces = 5000 if (c["inp"] == "stdin" and cmd != "key_generate" and idx % 2 == 1 and len(stdin) > 5000) else None
-        r = cli.kestrel(args, env=env, stdin=stdin, timeout=120, stdout_path="/dev/full" if cause == "stdout_full" else None,
+        r = cli.kestrel(args, env=env, stdin=stdin, timeout=120, cwd=sb.dir, stdout_path="/dev/full" if cause == "stdout_full" else None,
                         raw_env=raw_env, setsid=(cause == "no_terminal"), stdout_closed=(cause == "stdout_closed"), stdin_pieces=pieces)
         # ---- classify the output ----
         if cause in ("output_device_full", "stdout_full", "stdout_closed", "input_read_error", "output_is_directory"):
@@ -401,7 +407,7 @@ def run_configs(rep, pid, name, w, configs, only_prefixes, psize=None):
     return evs
 
 
-def tool_configs(cmds, causes):
+def tool_configs(cmds, causes, priors=("absent",)):
     """Configurations of CliContract for a tool-level clause of another property (C04, C10): default wiring plus
     stdin / long-option variants."""
     out = []
@@ -417,16 +423,19 @@ def tool_configs(cmds, causes):
                     inp = "stdin"
                 if cause == "input_read_error" and inp != "file":
                     continue
-                c = {"cmd": cmd, "cause": cause, "prior": "absent", "inp": inp, "outp": outp, "kr": "opt", "long": lng, "alias": lng,
-                     "sender": "first"}
-                if c not in out:
-                    out.append(c)
+                for prior in priors:
+                    if prior == "present" and (outp != "file" or cause in ("output_dir_missing", "output_device_full", "output_is_directory")):
+                        continue
+                    c = {"cmd": cmd, "cause": cause, "prior": prior, "inp": inp, "outp": outp, "kr": "opt", "long": lng, "alias": lng,
+                         "sender": "first"}
+                    if c not in out:
+                        out.append(c)
     return out
 
 
-def tool_clause(rep, pid, tpl, seed, cmds, causes, prefix):
+def tool_clause(rep, pid, tpl, seed, cmds, causes, prefix, priors=("absent",)):
     w = World(pid, tpl, seed)
-    cfgs = tool_configs(cmds, causes)
+    cfgs = tool_configs(cmds, causes, priors)
     for c in cfgs:
         rep.case("tool:" + json.dumps(c, sort_keys=True), True)
     evs = run_configs(rep, pid, "tool", w, cfgs, [prefix])
